@@ -14,12 +14,16 @@ from vlib import HarnessError, finish, mc_coverage, read_line, report_violation,
 
 
 def main(ctx):
-    tlc_mc(ctx, "Locks.tla", "Locks_quick.cfg", timeout=900, label="Locks.tla repaired protocol: NoLeak NoStuck Live (transient faults, Close)")
-    tlc_mc(ctx, "Locks.tla", "Locks_largebatch.cfg", timeout=900, label="Locks.tla with the oversize-batch writer")
+    tlc_mc(ctx, "Locks.tla", "Locks_quick.cfg", timeout=900, label="Locks.tla repaired protocol (writers, transaction, flush and table-compaction goroutines, Close, transient faults): NoLeak NoStuck")
+    tlc_mc(ctx, "Locks.tla", "Locks_largebatch.cfg", timeout=900, label="Locks.tla with the oversize-batch writer: NoLeak NoStuck")
+    tlc_mc(ctx, "Locks.tla", "Locks_live_quick.cfg", timeout=900,
+           label="Locks.tla with a sticky manifest error (compaction commits retried for ever): every client call and Close still return (Live, per-process fairness)")
     if not ctx.quick:
-        for f in ("F6", "F7", "F8"):
+        tlc_mc(ctx, "Locks.tla", "Locks_thorough.cfg", timeout=3000, label="Locks.tla two writers, 3 faults: NoLeak NoStuck Live")
+        tlc_mc(ctx, "Locks.tla", "Locks_sticky_F9.cfg", timeout=1800, label="Locks.tla two writers, sticky manifest error: Live")
+        for f in ("F6", "F7", "F8", "F9"):
             r = tlc_mc(ctx, "Locks.tla", "Locks_ascoded_%s.cfg" % f, timeout=600, expect_violation=True,
-                       label="Locks.tla with lock leak %s as it was coded (must be violated: non-vacuity)" % f)
+                       label="Locks.tla with defect %s as it was coded (must be violated: non-vacuity)" % f)
             if not r["violated"]:
                 raise HarnessError("Locks.tla no longer exposes %s" % f)
     # (a) sequential workload x fault positions: a blocked call is the violation
